@@ -331,10 +331,21 @@ def modify(F, fmt, obj, old, new):
         obj.compose.respin = new["compose"]["respin"]
         obj.compose.id = new["compose"]["id"]
         obj.release.version = new["release"]["version"]
+        for nv in new["variants"]:                       # variant-level content: name, a further arch, a further path
+            v = obj.variants.variants[nv["key"]]
+            v.name = nv["name"]
+            v.arches = set(nv["arches"])
+            for cat, d in nv["paths"].items():
+                getattr(v.paths, cat).update(d)
     elif fmt == "treeinfo":
         obj.release.version = new["release"]["version"]
         obj.tree.build_timestamp = F[fmt].ts_value(new["tree"]["build_timestamp"])
         obj.tree.platforms = set(new["tree"]["platforms"])
+        for nv in new["variants"]:
+            v = obj.variants.variants[nv["key"]]
+            v.name = nv["name"]
+            for f, val in nv["paths"]:
+                setattr(v.paths, f, val)
     elif fmt == "discinfo":
         obj.description = new["description"]
         obj.disc_numbers = list(new["disc_numbers"])
